@@ -14,8 +14,9 @@ from typing import Union
 
 from harness.common import ASSUME, FAIL, PASS, check, tape_harness  # noqa: F401
 from harness import oracles as O
-from harness.frames import (CO_COROUTINE, CO_GENERATOR, CodeView, FakeFrame, ListLogger, classify_exit,
-                            record_workload, residue, validate_contract)
+from engine import verdicts as _V
+from harness.frames import (CO_COROUTINE, CO_GENERATOR, REPR_MSG, CodeView, FakeFrame, ListLogger, classify_exit,
+                            record_workload, representation_ok, residue, validate_contract)
 from harness.values import Grammar, build_value, show
 from vfix import funcs as F
 
@@ -94,6 +95,8 @@ FIXED_ENTRY = (1, "s", None, 2.5, True, (1,), [1], 3)
 
 def step_body(t, op, is_coro, k, depth_inflight=2, max_yields=2, rich=False):
     """One transition of the real tracer from an arbitrary valid state."""
+    if not representation_ok():
+        return _V.INCONCLUSIVE(REPR_MSG)
     ASSUME(k >= 0)
     logger = ListLogger()
     admit = t.take(2) == 0  # verdict of the custom code filter for the target code object
@@ -427,8 +430,8 @@ def realrun_body(t, k):
         gi += 1
     if gi != len(got):
         return check(False, lambda: f"{len(got) - gi} extra trace(s) logged, first: {got[gi].func.__qualname__}")
-    left = [f for f in tracer.traces if all(f is not proxies[fid] for fid in unfinished)]
-    return check(not left and not getattr(tracer, "unsampled", None), "per-call state left in the tracer after every call finished")
+    left = [n for fid, fr in proxies.items() if fid not in unfinished for n in residue(tracer, fr)]
+    return check(not left, lambda: f"per-call state left in tracer.{left[0]} after every call finished")
 
 
 tape_harness("realrun", [("t", 1)], {"k": "int"}, realrun_body, globals())
